@@ -182,6 +182,8 @@ def gen_source(rnd, size_class, allow_empty, allow_extreme=True):
         spec["nb_easy_neg"] = rnd.randint(0, max(1, int(mult * max(nneg, 1))))
         if rnd.random() < 0.3:
             spec[rnd.choice(["nb_easy_pos", "nb_easy_neg"])] = 0
+    if rnd.random() < 0.12:
+        spec["easy_type"] = rnd.choice(["int64", "int64", "int32"])  # counts that come out of np.sum / np.count_nonzero
     if rnd.random() < 0.15:
         # the same values handed over in another legal container (list / tuple / non-contiguous or negative-stride view /
         # pandas Series with a shuffled non-default index)
@@ -211,7 +213,8 @@ def gen_cfg(rnd, method):
     elif rnd.random() < 0.1:
         cfg["ratio"] = 0.5  # must be ignored by the other methods
     if method == "callable":
-        cfg["sampling_method"] = {"callable": rnd.choice(["identity", "fixed", "fixed", "raising"])}
+        cfg["sampling_method"] = {"callable": rnd.choice(["identity", "fixed", "fixed", "raising"]),
+                                  "form": rnd.choice(["function", "function", "instance", "partial", "method"])}
     return cfg
 
 
@@ -413,6 +416,29 @@ def make_sampler(kind, fixed_spec):
     return sampler, box
 
 
+class _CallableSampler:
+    """A sampler that is an object with __call__ rather than a function."""
+
+    def __init__(self, fn):
+        self.fn = fn
+
+    def __call__(self, source, **kw):
+        return self.fn(source, **kw)
+
+
+def wrap_callable(fn, form):
+    """The same sampler as another kind of callable: an instance with __call__, a functools.partial, a bound method."""
+    if form == "instance":
+        return _CallableSampler(fn)
+    if form == "partial":
+        import functools
+
+        return functools.partial(lambda tag, source, **kw: fn(source, **kw), "tag")
+    if form == "method":
+        return _CallableSampler(fn).__call__
+    return fn
+
+
 def size_class_of(o):
     n = min(len(o.pos), len(o.neg))
     return "0" if n == 0 else "1-5" if n <= 5 else "6-40" if n <= 40 else "41-99" if n < 100 else "100" if n == 100 else ">100"
@@ -540,6 +566,7 @@ def execute(scn, ctx):
         sampler = box = None
         if eff == "callable":
             sampler, box = make_sampler(cfg["sampling_method"]["callable"], {k_: v_ for k_, v_ in specs[oi].items() if k_ not in ("via", "presorted", "swaps")})
+            sampler = wrap_callable(sampler, cfg["sampling_method"].get("form", "function"))
             probe("callable")
         config = M.build_config(cfg, sampler)
         tags = {"method": cfg["sampling_method"] if not isinstance(cfg["sampling_method"], dict) else "callable",
